@@ -693,7 +693,10 @@ impl<K: CacheKey + 'static> AsyncCache<K> for DiskCache<K> {
                 .fetch_sub(entry.size_bytes as u64, Ordering::Relaxed);
             Ok(true)
         } else {
-            Ok(false)
+            // Not indexed, but a previous instance on this directory may have written
+            // the file: it must go too, or the get() fallback would serve the removed value
+            let file_path = self.get_file_path(key)?;
+            Ok(fs::remove_file(&file_path).is_ok())
         }
     }
 
